@@ -2141,7 +2141,10 @@ def method(fr, base, name, args, kw, n):
                 args = [k_] + list(args[1:])
             if name == "get" and args and (is_abs(args[0]) or isinstance(args[0], tuple)):
                 args = [concretise(fr, args[0])] + list(args[1:])
-            if name == "get" and args and (is_abs(args[0]) or (isinstance(args[0], tuple) and any(is_abs(x) for x in args[0]))):
+            if name == "get" and args and not isinstance(args[0], AEnum) and (len(base) > 16 or isinstance(args[0], tuple)) \
+                    and (is_abs(args[0]) or (isinstance(args[0], tuple) and any(is_abs(x) for x in args[0]))):
+                # (an enumeration key, and a scalar key of a small dictionary, are decided entry by entry further down: the PATH forks,
+                # which keeps function-valued entries apart)
                 ka = key_atoms(fr, args[0])
                 if ka is not None and len(ka) <= MAX_FIN_ATOMS:
                     raise NeedCases(ka)          # a (tuple) key that is a function of a few input bits: per assignment of those bits
